@@ -140,8 +140,12 @@ def explore(pid, cases, rep, nontrivial, extra_checks=(), keep=None, use_corpus=
     # C04: the hypotheses of the universal bisimulation theorem (C04_hw_bisimulation_decidable), evaluated per accepted
     # XY description on the grid spec.xy_grid derives from the description alone: where all hold, "same outcome as on the
     # ideal grid for every pair and every target coordinate" is a THEOREM about the model's netlist
-    if pid == "C04":
-        acc = [i for i, m in enumerate(mods) if isinstance(m, list) and m and m[0] == "ok" and spec.xy_grid(cases[i][0]) is not None]
+    # C09: the same hypotheses carry C09_xy_conditions_sound (XYCdg.v: the routes as emitted of an XY mesh induce an
+    # acyclic dependency graph) -- beyond the property's quantifier (ID and source routing), counted under another name
+    if pid in ("C04", "C09"):
+        key = "side_bisim" if pid == "C04" else "side_xy_mesh"
+        acc = [i for i, m in enumerate(mods) if isinstance(m, list) and m and m[0] == "ok"
+               and cases[i][0].get("routing", {}).get("route_algo") == "XY" and spec.xy_grid(cases[i][0]) is not None]
         xreqs = []
         for i in acc:
             g = spec.xy_grid(cases[i][0])
@@ -153,13 +157,13 @@ def explore(pid, cases, rep, nontrivial, extra_checks=(), keep=None, use_corpus=
             if isinstance(sd, list) and sd and sd[0] == "ok":
                 flags = [b is True for b in sd[1:]]
                 if all(flags) and len(flags) == len(names):
-                    stats["side_bisim_theorem_applies"] += 1
+                    stats[key + "_theorem_applies"] += 1
                 else:
                     for nm, b in zip(names, flags):
                         if not b:
-                            stats["side_bisim_fail_" + nm] += 1
+                            stats[key + "_fail_" + nm] += 1
             else:
-                stats["side_bisim_not_evaluated"] += 1
+                stats[key + "_not_evaluated"] += 1
     for i, ((d, t), r) in enumerate(zip(cases, res)):
         dist[f"{t.get('topo')}/{d['routing']['route_algo']}/{'nw' if d['network_type'] != 'axi' else 'axi'}"] += 1
         if not r["ok"]:
